@@ -7,7 +7,7 @@ import ast
 from ..core import astutil as A
 from ..core.index import AnalysisError
 from ..selftest import M
-from .common import (OTF_OUTLINE, T, calls_named, check_forwarding, check_plumbing, conds, facts, has_fact, key,
+from .common import (OTF_OUTLINE, T, calls_named, every_origin, check_forwarding, check_plumbing, conds, facts, has_fact, key,
                      need, subscript_stores, where)
 
 PP = "ufo2ft.postProcessor.PostProcessor"
@@ -223,9 +223,86 @@ def run(prog, chk):
     check_plumbing(prog, chk, "R12.4", rows)
     check_forwarding(prog, chk, "R12.4")
     chk.minimum("R12.4", 15)
+    r126(prog, chk)
+
+
+def r126(prog, chk):
+    """CFF 1 charstring width operand: omitted (None) iff the advance equals
+    defaultWidthX, else advance - nominalWidthX, rounded; presence is always tested
+    with `is None` (0 is a valid operand: advance == nominalWidthX); every
+    charstring comes out of the pen that was given that operand."""
+    from .rounding import is_otround
+    ix = prog.ix
+    otf = ix.get_class(OTF_OUTLINE)
+    g = otf.methods["getCharStringForGlyph"]
+    pens = [c for c in A.body_nodes(g.node) if isinstance(c, ast.Call) and A.callee_name(c) == "T2CharStringPen"]
+    need(len(pens) == 1 and pens[0].args and isinstance(pens[0].args[0], ast.Name), f"cannot interpret {g.short}: T2CharStringPen(width, ...)")
+    w = pens[0].args[0].id
+    cfg = prog.cfg(g)
+    defs = cfg.defs_of(w)
+    glyph_p = g.params()[1]
+    src = [d for d in defs if d.kind == "assign" and isinstance(d.value, ast.Attribute) and d.value.attr == "width" and T(d.value.value) == glyph_p]
+    chk.ob("R12.6", f"{g.short}|operand starts from glyph.width", len(src) == 1, where(g), detail="width = glyph.width",
+           message="the charstring width operand is not derived from the glyph's advance width")
+    nones = [d for d in defs if d.kind == "assign" and A.is_const(d.value, None)]
+    ok = len(nones) == 1
+    if ok:
+        fs = facts(prog, g, nones[0].binder)
+        ok = any(o == "eq" and {l, r} >= {w} and any("default" in x.lower() for x in (l, r)) for o, l, r in fs)
+    chk.ob("R12.6", f"{g.short}|operand omitted iff advance == defaultWidthX", ok, where(g, nones[0].binder) if nones else where(g), detail="if width == defaultWidth: width = None",
+           message="the width operand is dropped under a condition other than 'advance equals defaultWidthX' (a missing operand means defaultWidthX)")
+    subs = [d for d in defs if d.kind == "augassign" and isinstance(d.binder.op, ast.Sub)] + \
+           [d for d in defs if d.kind == "assign" and isinstance(d.value, ast.BinOp) and isinstance(d.value.op, ast.Sub) and T(d.value.left) == w]
+    ok = len(subs) == 1 and "nominal" in T(subs[0].binder).lower()
+    if ok:
+        fs = facts(prog, g, subs[0].binder)
+        ok = any(o == "ne" and w in (l, r) and any("default" in x.lower() for x in (l, r)) for o, l, r in fs)
+    chk.ob("R12.6", f"{g.short}|otherwise operand = advance - nominalWidthX", ok, where(g), detail="else: width -= nominalWidth",
+           message="the width operand is not 'advance minus nominalWidthX' on the other branch")
+    rounds = [d for d in defs if d.kind == "assign" and is_otround(prog, g, d.value)]
+    ok = len(rounds) == 1 and cfg.exists_path(rounds[0].node, [cfg.node_of(pens[0])])
+    chk.ob("R12.6", f"{g.short}|operand rounded with otRound before it reaches the pen", ok, where(g), detail="if width is not None: width = otRound(width)",
+           message="the width operand is not rounded with otRound before the charstring is built")
+    # presence of the operand is never tested by truthiness
+    n = 0
+    for node in A.body_nodes(g.node):
+        tests = []
+        if isinstance(node, (ast.If, ast.IfExp, ast.While)):
+            tests.append(node.test)
+        elif isinstance(node, ast.BoolOp):
+            tests += node.values
+        elif isinstance(node, ast.UnaryOp) and isinstance(node.op, ast.Not):
+            tests.append(node.operand)
+        for t in tests:
+            if isinstance(t, ast.Name) and t.id == w:
+                n += 1
+                chk.ob("R12.6", f"{g.short}|{A.keytext(g.node, node)[:60]}", False, where(g, node),
+                       message=f"the width operand `{w}` is tested by truthiness (`{T(node, 50)}`): 0 is a valid operand (advance == nominalWidthX) and would be "
+                               f"treated like 'omitted', i.e. defaultWidthX - CFF 1 widths then disagree with hmtx and with CFF2 builds")
+    chk.ob("R12.6", f"{g.short}|operand presence only tested with `is None`", n == 0, where(g), detail="no truthiness test of the operand")
+    # every returned charstring comes from that pen
+    for r in A.returns_of(g.node):
+        ok, bad = every_origin(prog, g, r.value, lambda x, f: isinstance(x, ast.Call) and A.callee_name(x) == "getCharString" and isinstance(x.func, ast.Attribute), allow_const=False)
+        if ok:
+            gcs = [c for c in calls_named(g, "getCharString")]
+            pen_st = ix.enclosing_stmt(pens[0])
+            pn = pen_st.targets[0].id if isinstance(pen_st, ast.Assign) and isinstance(pen_st.targets[0], ast.Name) else None
+            ok = all(T(c.func.value) == pn for c in gcs)
+        chk.ob("R12.6", f"{g.short}|{A.keytext(g.node, r)}|charstring produced by the pen that holds the operand", ok, where(g, r), detail="pen.getCharString(...)",
+               message=f"a charstring is returned that does not come from the T2CharStringPen built with the width operand ({bad})")
+    chk.minimum("R12.6", 6)
 
 
 MUTANTS = [
+    M("empty glyphs get a hand-built charstring with a truthiness test of the operand (seeded C12b)", "ufo2ft/outlineCompiler.py", "OutlineOTFCompiler.getCharStringForGlyph",
+      "pen = T2CharStringPen(width, self.allGlyphs, roundTolerance=self.roundTolerance)",
+      "if not len(glyph):\n    return T2CharString(program=[width, 'endchar'] if width else ['endchar'], private=private, globalSubrs=globalSubrs)\npen = T2CharStringPen(width, self.allGlyphs, roundTolerance=self.roundTolerance)", rule="R12.6"),
+    M("operand rounded only when non-zero", "ufo2ft/outlineCompiler.py", "OutlineOTFCompiler.getCharStringForGlyph",
+      "if width is not None:\n    width = otRound(width)", "if width:\n    width = otRound(width)", rule="R12.6"),
+    M("operand omitted when it equals the nominal width", "ufo2ft/outlineCompiler.py", "OutlineOTFCompiler.getCharStringForGlyph",
+      "width == defaultWidth", "width == nominalWidth", rule="R12.6"),
+    M("nominal width not subtracted", "ufo2ft/outlineCompiler.py", "OutlineOTFCompiler.getCharStringForGlyph",
+      "width -= nominalWidth", "pass", rule="R12.6"),
     M("new backend member without a method", "ufo2ft/postProcessor.py", "PostProcessor.SubroutinizerBackend",
       "CFFSUBR = 'cffsubr'", "CFFSUBR = 'cffsubr'\nPYCFFSUBR = 'pycffsubr'", rule="R12.1"),
     M("default table loses CFF2", "ufo2ft/postProcessor.py", "PostProcessor",
